@@ -61,6 +61,9 @@ func loadKinds(r *h.Run) {
 		Sentinels []struct{ Name, Text string } `json:"sentinels"`
 	}
 	path := "../coq/C11/errkinds.json"
+	if root := os.Getenv("VERIF_ROOT"); root != "" { // the pipeline runs every harness in a private, empty working directory
+		path = root + "/coq/C11/errkinds.json"
+	}
 	bs, err := os.ReadFile(path)
 	if err != nil || json.Unmarshal(bs, &tab) != nil || len(tab.Sentinels) == 0 {
 		r.Fail("kind-table-unreadable", "cannot read the generated kind table "+path, nil)
